@@ -10,7 +10,7 @@ use std::ffi::OsString;
 
 pub static DEF: PropDef = PropDef {
     id: "C19",
-    rule: "outcomes: sequences of 0-30 child outcomes over {exit 0, exit 1..125, exit 255, death by SIGTERM/SIGKILL/SIGUSR1/SIGINT/SIGSEGV-as-raise}, one invocation per outcome (batching by -n k / -L k with k in 1..3 and exactly k arguments per invocation, or -I), delivered to the rec recorder through its script; fatal outcomes at every position, also after earlier ordinary failures; command kinds: rec, a missing name (bare and with a path), a non-executable file, a directory; input modes default/-0/-d. Exhaustive sub-run: every outcome sequence of length <= 4 over the six outcome classes {0, 1, 125, 255, SIGTERM, SIGKILL}. own-errors: a table of usage and input errors (bad -n/-L/-s/-P/-d values, unknown option, -s smaller than the command, -s too small for one argument, unterminated quotes, missing -a file) each preceded by 0-3 successful or failing invocations where the error is raised lazily. Oracle: the exit-status automaton from the statement (0; 123 sticky after any exit 1..125; stop at first 255 -> 124, signal -> 125, cannot run -> 126, not found -> 127; own errors -> 1) compared with the xargs binary's status; the recorder's invocation count must equal the index of the stopping outcome + 1 (or all). Non-trivial = the sequence has an ordinary failure before a fatal outcome, or a fatal outcome that is not last, or (own-errors) the error follows at least one invocation. Distinct = distinct case JSON.",
+    rule: "outcomes: sequences of 0-30 child outcomes over {exit 0, exit 1..125, exit 255, death by SIGTERM/SIGKILL/SIGUSR1/SIGINT/SIGSEGV-as-raise}, one invocation per outcome (batching by -n k / -L k with k in 1..3 and exactly k arguments per invocation, or -I), delivered to the rec recorder through its script; fatal outcomes at every position, also after earlier ordinary failures; command kinds: rec, a missing name (bare and with a path), a non-executable file, a directory, an executable-bit file that is not an executable image (junk / empty); input modes default/-0/-d. Exhaustive sub-run: every outcome sequence of length <= 4 over the six outcome classes {0, 1, 125, 255, SIGTERM, SIGKILL}. own-errors: a table of usage and input errors (bad -n/-L/-s/-P/-d values, unknown option, -s smaller than the command, -s too small for one argument, unterminated quotes, missing -a file) each preceded by 0-3 successful or failing invocations where the error is raised lazily. Oracle: the exit-status automaton from the statement (0; 123 sticky after any exit 1..125; stop at first 255 -> 124, signal -> 125, cannot run -> 126, not found -> 127; own errors -> 1) compared with the xargs binary's status; the recorder's invocation count must equal the index of the stopping outcome + 1 (or all). Non-trivial = the sequence has an ordinary failure before a fatal outcome, or a fatal outcome that is not last, or (own-errors) the error follows at least one invocation. Distinct = distinct case JSON.",
     assumptions: &[
         "child exit codes 126-254 are not generated (the statement does not fix them)",
         "an own error raised while reading input (unterminated quote, oversized argument) after a child already exited 255 / died is governed by the earlier fatal outcome (xargs stops at once)",
@@ -34,7 +34,8 @@ pub struct Case {
     pub k: usize,
     /// 0: -n k, 1: -L k, 2: -I {} (k forced to 1)
     pub batch: u8,
-    /// 0 rec, 1 missing bare name, 2 missing with path, 3 non-executable file, 4 directory
+    /// 0 rec, 1 missing bare name, 2 missing with path, 3 non-executable file, 4 directory,
+    /// 5 executable-bit file that is not an executable image (ENOEXEC), 6 empty executable-bit file
     pub cmd: u8,
     /// 0 default, 1 -0, 2 -d ','
     pub mode: u8,
@@ -71,7 +72,7 @@ pub fn gen_case(g: &mut Gen) -> Case {
     }
     let batch = g.weighted(&[5, 3, 2]) as u8;
     let k = if batch == 2 { 1 } else { g.usize_in(1, 3) };
-    Case { outcomes, k, batch, cmd: g.weighted(&[14, 1, 1, 1, 1]) as u8, mode: g.weighted(&[5, 2, 1]) as u8, no_run_if_empty: g.chance(1, 3), bare: gen_outcome(g) }
+    Case { outcomes, k, batch, cmd: g.weighted(&[14, 1, 1, 1, 1, 1, 1]) as u8, mode: g.weighted(&[5, 2, 1]) as u8, no_run_if_empty: g.chance(1, 3), bare: gen_outcome(g) }
 }
 
 pub fn script_of(o: &[Oc]) -> String {
@@ -159,9 +160,16 @@ pub fn check(ctx: &mut Ctx, c: &Case) -> Outcome {
             std::fs::write(format!("{d}/plain"), b"#!/bin/sh\nexit 0\n").unwrap();
             format!("{d}/plain").into()
         }
-        _ => {
+        4 => {
             std::fs::create_dir(format!("{d}/dir")).unwrap();
             format!("{d}/dir").into()
+        }
+        k => {
+            use std::os::unix::fs::PermissionsExt;
+            let p = format!("{d}/blob");
+            std::fs::write(&p, if k == 5 { &b"\x01\x02junk, not an executable image\n"[..] } else { &b""[..] }).unwrap();
+            std::fs::set_permissions(&p, std::fs::Permissions::from_mode(0o755)).unwrap();
+            p.into()
         }
     };
     let mut cmd = vec![cmd0];
